@@ -1148,7 +1148,11 @@ class ParseUniq:
             else:
                 base = vlist.get("index", "")
                 base = nshandler.get_fqname(base, page_ns)
-                pages = [f"{base}/{i}" for i in range(start_index, end_index + 1)]
+                if end_index - start_index > 1000:
+                    # ProofreadPage refuses such an interval, too (proofreadpage_interval_too_large)
+                    pages = []
+                else:
+                    pages = [f"{base}/{i}" for i in range(start_index, end_index + 1)]
 
             rawtext = "".join("{{%s}}\n" % x for x in pages)
             template_expander = expander.__class__(
